@@ -430,27 +430,33 @@ def charIndicesNext (c : Cursor) (g : Int) : Option Cursor :=
 
 /-- executable `Split` over byte lists, `steps` calls of `next` then `size_hint`
 (outputs: the yielded pieces as (start, end) and the final size_hint) -/
-def splitRun (input pat : List Nat) : Nat → Cursor → List (Int × Int) → List (Int × Int) × Res Int
-  | 0, c, acc => (acc.reverse, sizeHint c)
+def splitRunH (hint : Cursor → Res Int) (input pat : List Nat) :
+    Nat → Cursor → List (Int × Int) → List (Int × Int) × Res Int
+  | 0, c, acc => (acc.reverse, hint c)
   | n + 1, c, acc =>
     let found := (findSub pat (input.drop c.pos.toNat)).map Int.ofNat
     match splitNext c pat.length found with
-    | none => (acc.reverse, sizeHint c)
-    | some c' => splitRun input pat n c' ((c.pos, c'.pos - pat.length) :: acc)
+    | none => (acc.reverse, hint c)
+    | some c' => splitRunH hint input pat n c' ((c.pos, c'.pos - pat.length) :: acc)
 
-def linesRun (input : List Nat) : Nat → Cursor → List (Int × Int) → List (Int × Int) × Res Int
-  | 0, c, acc => (acc.reverse, sizeHint c)
+def splitRun := splitRunH sizeHint
+
+def linesRunH (hint : Cursor → Res Int) (input : List Nat) :
+    Nat → Cursor → List (Int × Int) → List (Int × Int) × Res Int
+  | 0, c, acc => (acc.reverse, hint c)
   | n + 1, c, acc =>
     let rest := input.drop c.pos.toNat
     let found := (findSub [10] rest).map fun k =>
       (Int.ofNat k, decide (k > 0 ∧ rest[k - 1]? = some 13))
     match linesNext c found with
-    | none => (acc.reverse, sizeHint c)
+    | none => (acc.reverse, hint c)
     | some c' =>
       let e := match found with
         | some (k, cr) => if cr then c.pos + k - 1 else c.pos + k
         | none => c.len
-      linesRun input n c' ((c.pos, e) :: acc)
+      linesRunH hint input n c' ((c.pos, e) :: acc)
+
+def linesRun := linesRunH sizeHint
 
 def bytesRun : Nat → Cursor → Nat → Nat × Res Int
   | 0, c, k => (k, sizeHint c)
@@ -493,9 +499,15 @@ def sourceExcerpt (nLines sl sc el ec : Int) : Res Unit :=
 
 /-! ## `ExecutionTimeout` (vm.rs) -/
 
-/-- `now + execution_limit` (`Instant + Duration`, seconds as `i64`): panics on overflow;
+/-- before commit 2bba370: `now + execution_limit` (`Instant + Duration`, seconds as `i64`) panics
+on overflow -/
+def timeoutDeadlineUnchecked (nowSecs limitSecs : Int) : Res Int := ckI64 (nowSecs + limitSecs)
+
+/-- current code: `now.checked_add(limit).unwrap_or_else(|| now + Duration::from_secs(u32::MAX))`;
 `first_interval_instruction_count as usize` and the other `f64 → usize` casts saturate -/
-def timeoutDeadline (nowSecs limitSecs : Int) : Res Int := ckI64 (nowSecs + limitSecs)
+def timeoutDeadline (nowSecs limitSecs : Int) : Res Int :=
+  if I64_MIN ≤ nowSecs + limitSecs ∧ nowSecs + limitSecs ≤ I64_MAX then .ok (nowSecs + limitSecs)
+  else ckI64 (nowSecs + U32_MAX)
 
 /-- `check_for_timeout`, fast path: guard `since < interval`, then `since += 1` -/
 def timeoutTick (since interval : Int) : Res (Option Int) :=
@@ -554,5 +566,119 @@ def frameStep (f : Frame) : FrameOp → Res Frame
 def frameRun (f : Frame) : List FrameOp → Res Frame
   | [] => .ok f
   | op :: ops => (frameStep f op).bind fun f' => frameRun f' ops
+
+
+/-! ## the same kernels after the proposed repairs (requests/C06-fix-*.diff)
+
+Each repair is a flag of `Fx`; with all flags off the `…G` kernels are the kernels above (link lemmas
+in Props/C06.lean), with a flag on they mirror the patched code. The harness selects the flags from
+the status of the findings in known_findings.json (`fixed` ⇒ flag on), so that the correspondence
+compares the implementation with the model of the code *as it is*. -/
+
+structure Fx where
+  /-- F-C06-1 / fix-1: `%=` with an integer zero divisor yields NaN -/
+  rem : Bool := false
+  /-- F-C06-2 / fix-2: `saturating_sub` in Split / Lines / SplitWith `size_hint` -/
+  hint : Bool := false
+  /-- F-C06-5 / fix-5: `end.saturating_add(1)` in `as_bounded_range` -/
+  range : Bool := false
+  /-- F-C06-7 / fix-5: `wrapping_sub … as u64 as usize` in `KRange::size` -/
+  size : Bool := false
+  /-- F-C06-6 / fix-6: shift amounts `>= 64` are rejected -/
+  shift : Bool := false
+  /-- F-C06-9 / fix-9: `wrapping_abs` -/
+  abs : Bool := false
+  /-- F-C06-10 / fix-10: `saturating_sub/add` in `range.expanded` -/
+  expanded : Bool := false
+  /-- F-C06-11 / fix-11: `wrapping_add` when indexing an open-ended range -/
+  openIndex : Bool := false
+  deriving Repr, DecidableEq
+
+def Fx.none : Fx := {}
+def Fx.all : Fx := ⟨true, true, true, true, true, true, true, true⟩
+
+def satI64 (x : Int) : Int := max I64_MIN (min I64_MAX x)
+
+def asBoundedRangeG (fx : Fx) (r : KRange) : Res (Int × Int) :=
+  match r.triple with
+  | (s, e, incl) =>
+    (if incl then (if fx.range then .ok (min (e + 1) I64_MAX) else ckI64 (e + 1)) else .ok e).bind fun e' =>
+      .ok (s, max e' s)
+
+def rangeSizeG (fx : Fx) (r : KRange) : Res (Option Int) :=
+  if r.isBounded then
+    (asBoundedRangeG fx r).bind fun (s, e) =>
+      (if fx.size then .ok (max e s - s) else ckI64 (max e s - s)).bind fun d => .ok (some d)
+  else .ok none
+
+def rangeContainsG (fx : Fx) (r : KRange) (n : Int) : Res Bool :=
+  (asBoundedRangeG fx r).bind fun (s, e) => .ok (decide (s ≤ n ∧ n < e))
+
+def rangeIndicesG (fx : Fx) (r : KRange) (maxIndex : Int) : Res (Int × Int) :=
+  let mi := castI64 maxIndex
+  (asBoundedRangeG fx r).bind fun (s, e) =>
+    (clamp s 0 mi).bind fun a =>
+      (clamp e a mi).bind fun b => .ok (a, b)
+
+def rangeIntersectionG (fx : Fx) (a b : KRange) : Res (Option (Int × Int)) :=
+  (asBoundedRangeG fx a).bind fun (s1, e1) =>
+    (asBoundedRangeG fx b).bind fun (s2, e2) =>
+      let c (x : Int) := decide (s1 ≤ x ∧ x < e1)
+      if !(c s2 || c e2) then .ok none else .ok (some (max s1 s2, min e1 e2))
+
+def runIndexSeqRangeG (fx : Fx) (len : Int) (r : KRange) : Res (Int × Int) :=
+  (rangeIndicesG fx r len).bind fun (a, b) => sliceRange len a b
+
+def runIndexRangeNumG (fx : Fx) (r : KRange) (n : NumView) : Res Int :=
+  match r.start with
+  | none => .err
+  | some s =>
+    (rangeSizeG fx r).bind fun sz =>
+      (validateIndex n sz).bind fun i =>
+        if fx.openIndex then .ok (wrap64 (s + castI64 i)) else ckI64 (s + castI64 i)
+
+def indexAssignListRangeG (fx : Fx) (len : Int) (r : KRange) : Res (Int × Int) :=
+  (rangeIndicesG fx r len).bind fun (a, b) =>
+    if a < b then (sliceIndex len (b - 1)).bind fun _ => .ok (a, b) else .ok (a, b)
+
+/-- (fix-5 also makes the range arm of `run_temp_index` saturate / wrap) -/
+def runTempIndexRangeG (fx : Fx) (r : KRange) (index : Int) : Res (Option Int) :=
+  let add (a b : Int) : Res Int := if fx.range then .ok (wrap64 (a + b)) else ckI64 (a + b)
+  if index < 0 then
+    match r.stop with
+    | none => .err
+    | some (e, incl) =>
+      (if incl then (if fx.range then .ok (min (e + 1) I64_MAX) else ckI64 (e + 1)) else .ok e).bind fun e' =>
+        (add e' index).bind fun v =>
+          (rangeContainsG fx r v).bind fun c => .ok (if c then some v else none)
+  else
+    match r.start with
+    | none => .err
+    | some s =>
+      (add s index).bind fun v =>
+        (rangeContainsG fx r v).bind fun c => .ok (if c then some v else none)
+
+def runRemainderAssignG (fx : Fx) (a b : Int) : Res (Option Int) :=
+  if fx.rem ∧ b = 0 then .ok none else (wrappingRem a b).map' some
+
+def sizeHintG (fx : Fx) (c : Cursor) : Res Int :=
+  if fx.hint then .ok (max 0 (c.len - c.pos)) else ckUsize (c.len - c.pos)
+
+def shiftLeftG (fx : Fx) (a : Int) (b : NumView) : Res Int :=
+  if b.geZeroI ∧ (fx.shift = true → b.i64 < 64) then
+    (if b.i64 < 64 then .ok (wrap64 (a * 2 ^ b.i64.toNat)) else .panic)
+  else .err
+
+def shiftRightG (fx : Fx) (a : Int) (b : NumView) : Res Int :=
+  if b.geZeroI ∧ (fx.shift = true → b.i64 < 64) then
+    (if b.i64 < 64 then .ok (a / 2 ^ b.i64.toNat) else .panic)
+  else .err
+
+def absIntG (fx : Fx) (a : Int) : Res Int :=
+  if fx.abs then .ok (wrap64 (if a < 0 then -a else a)) else ckI64 (if a < 0 then -a else a)
+
+def rangeExpandedG (fx : Fx) (s e n : Int) : Res (Int × Int) :=
+  if fx.expanded then .ok (satI64 (s - n), satI64 (e + n))
+  else (ckI64 (s - n)).bind fun s' => (ckI64 (e + n)).bind fun e' => .ok (s', e')
 
 end KotoVerif.Guards
